@@ -193,11 +193,33 @@ fn span_text(src: &str, span: &diagn::Span) -> Value {
     }
 }
 
+// the digits of a number literal: the number token inside the literal's span (the span takes in parentheses
+// written around the literal)
+fn number_text(src: &str, span: &diagn::Span) -> Value {
+    if let Some((a, b)) = span.location() {
+        if a <= b && b <= src.len() && src.is_char_boundary(a) && src.is_char_boundary(b) {
+            let text = &src[a..b];
+            let mut i = 0;
+            while i < text.len() {
+                let (kind, len) = customasm::syntax::decide_next_token(&text[i..]);
+                if len == 0 {
+                    break;
+                }
+                if kind == customasm::syntax::TokenKind::Number {
+                    return cps(&text[i..i + len]);
+                }
+                i += len;
+            }
+        }
+    }
+    json!([])
+}
+
 fn expr_json(src: &str, e: &customasm::expr::Expr) -> Value {
     use customasm::expr::{BinaryOp, Expr, UnaryOp, Value as V};
     match e {
         Expr::Literal(span, v) => match v {
-            V::Integer(_) => json!({"k": "num", "text": span_text(src, span)}),
+            V::Integer(_) => json!({"k": "num", "text": number_text(src, span)}),
             V::Bool(b) => json!({"k": "bool", "b": b}),
             V::String(st) => json!({"k": "str", "cps": cps(&st.utf8_contents)}),
             _ => json!({"k": "otherlit"}),
